@@ -606,6 +606,17 @@ func checkC04(p *Prog, rp *Report) {
 		tok.ok("tokens", pos, fmt.Sprintf("%d automaton states explored: no blank is ever appended to a token, no empty architecture/profile name is stored; value xor error", pm.nodes))
 	}
 
+	if hp, und := highByteProbe(p); und != "" {
+		tok.undecided("high-bytes", pos, und)
+	} else {
+		fillProblems(tok, "high-bytes", pos, hp, "a field with bytes >= 0x80 (0x85 and 0xA0 among them) inside every token kind parses to exactly those tokens")
+	}
+	if rp2, und := receiverReuse(p); und != "" {
+		tok.undecided("receiver-reuse", pos, und)
+	} else {
+		fillProblems(tok, "receiver-reuse", pos, rp2, "decoding into a Dependency that already holds a value replaces it and leaves earlier copies alone")
+	}
+
 	ops := rp.Rule("C04-OPS", "storable operators are exactly the five Policy operators", 1)
 	var got []string
 	for o := range pm.ops {
